@@ -8,4 +8,5 @@ let find (id : string) : sx -> sx =
   | "C14" -> model_C14
   | "C02" -> model_C02
   | "C01" -> model_C01
+  | "C04" | "C15" | "C12" -> model_TOK
   | _ -> failwith ("no extracted model for " ^ id)
